@@ -24,6 +24,8 @@ from . import data, digest as dg, models, ops, seams
 from .seams import SimulatedCancel, SimulatedInterrupt
 
 PROPERTY = 'C20'
+# runs re-executed in a pristine process after the batch (driver.cross_process_check)
+CROSS_PROCESS_SAMPLE = {'quick': 400, 'thorough': 6000}
 
 RULE = (
     'one run = one seeded program of 5-40 (thorough: up to 60) operations '
@@ -548,6 +550,7 @@ def execute(program):
                   or world.boundaries >= 1)
     return {
         'digest': digest, 'signature': sig, 'nontrivial': nontrivial,
+        'log': json.loads(json.dumps(world.log, default=str)),
         'counters': world.counters,
         'sets': {k: sorted(v, key=repr) for k, v in world.sets.items()},
         'violations': world.violations,
